@@ -1032,6 +1032,86 @@ def run(repo, rep):
     common.identity_flag_rule(repo, rep, 'geodepy.angles')
     common.ctor_sign_table(repo, rep)
     zero_angle_rules(repo, rep)
+    method_value_table(repo, rep)
+
+
+def method_value_table(repo, rep):
+    """object -> object methods keep the angle: for DMS and DDM objects built from constant fields (a lattice that holds the awkward ones: zero
+    degrees with a negative sign, whole minutes with zero seconds, 59.7 minutes, a minutes field of exactly 60 as round() leaves it) the
+    decimal value of x.dms(), x.ddm(), x.deca(), x.gona(), -x, abs(x) and of the two-step chains is the decimal value of x (negated /
+    made positive).  Constant arguments fold exactly through the constructors' sign inference, divmod, int() and the operators."""
+    m = repo.module('geodepy.angles')
+
+    def decval(ev, o):
+        if not isinstance(o, Obj) or 'dec' not in o.cls.methods:
+            return None
+        r = ev.invoke(o.cls.methods['dec'], [o], {}, None)
+        r = r.rat if isinstance(r, CallV) else r
+        return r.as_fraction() if isinstance(r, Rat) else None
+    lattice = {'DMSAngle': [(d_, mi_, s_) for d_ in (0, 12) for mi_ in (0, 30, 59) for s_ in (0, F(61, 2), F(599996, 10000))],
+               'DDMAngle': [(d_, mi_) for d_ in (0, 12) for mi_ in (0, F(1, 2), F(121, 4), F(597, 10), 60)]}
+    chains = (('dms',), ('ddm',), ('deca',), ('gona',), ('__neg__',), ('__abs__',), ('ddm', 'dms'), ('dms', 'ddm'), ('__neg__', 'dms'), ('__neg__', 'ddm'), ('__neg__', '__neg__'))
+    for cname, pts in sorted(lattice.items()):
+        cls = m.classes.get(cname)
+        if cls is None:
+            raise AnalysisError('anchor vanished: angles.%s' % cname)
+        for chain in chains:
+            if chain[0] not in cls.methods:
+                continue
+            key = 'R-TABLE::geodepy/angles.py::%s.%s::value-table' % (cname, '.'.join(chain))
+            f0 = cls.methods[chain[0]]
+            bad = None
+            n_ok = 0
+            n_skip = 0
+            # a chain that asks a class for a conversion to itself (DMSAngle has no .dms()) does not exist
+            names_ = {'dms': 'DMSAngle', 'ddm': 'DDMAngle', 'deca': 'DECAngle', 'gona': 'GONAngle'}
+            cur_cls = cname
+            valid = True
+            for meth in chain:
+                if meth in names_:
+                    if names_[meth] == cur_cls:
+                        valid = False
+                    cur_cls = names_[meth]
+            if not valid:
+                continue
+            for args in pts:
+                for pos in (True, False):
+                    ev = Evaluator(repo)
+                    ev.fold_const_types = True
+                    try:
+                        o = ev.construct(cls, [C(x_) for x_ in args], {'positive': Bool(pos)}, None)
+                        base = decval(ev, o)
+                        cur = o
+                        for meth in chain:
+                            if not isinstance(cur, Obj) or meth not in cur.cls.methods:
+                                cur = None
+                                break
+                            cur = ev.invoke(cur.cls.methods[meth], [cur], {}, None)
+                        got = decval(ev, cur) if cur is not None else None
+                    except (AnalysisError, RecursionError, KeyError, TypeError, ZeroDivisionError):
+                        base = got = None
+                    if base is None or got is None:
+                        n_skip += 1
+                        continue
+                    want = base
+                    for meth in chain:
+                        if meth == '__neg__':
+                            want = -want
+                        elif meth == '__abs__':
+                            want = abs(want)
+                    if got == want:
+                        n_ok += 1
+                    elif bad is None:
+                        bad = (args, pos, got, want)
+            if bad is not None:
+                args, pos, got, want = bad
+                rep.violated('R-TABLE', key, where(f0, f0.node), '%s(%s, positive=%s).%s() denotes %.12g degrees, the angle itself is %s%.12g: the conversion does not keep the angle' % (
+                    cname, ', '.join(str(float(x_)) if isinstance(x_, F) else str(x_) for x_ in args), pos, '().'.join(chain), float(got),
+                    'then ' if any(c_ in ('__neg__', '__abs__') for c_ in chain) else '', float(want)), expected='%.12g' % float(want), actual='%.12g' % float(got))
+            elif n_ok < len(pts):
+                rep.undecided('R-TABLE', key, where(f0, f0.node), 'only %d of %d lattice points fold to numbers' % (n_ok, 2 * len(pts)))
+            else:
+                rep.holds('R-TABLE', key, where(f0, f0.node), '%s.%s keeps the angle on %d lattice objects (zero degrees, negative sign, whole minutes, a minutes field of 60)' % (cname, '.'.join(chain), n_ok))
 
 
 def vector_validator_rule(repo, rep):
